@@ -3,7 +3,7 @@ CONSTANTS NLeaf = 6  NBlk = 4  NAsm = 4  MaxLevel = 3  LMax = 20000  VMax = 100
 CONSTANTS Parent <- TEdgeParent  Area <- TEdgeArea  Height <- TEdgeHeight  Sym <- TEdgeSym  W <- Wt  N0 <- TEdgeN0  H0 <- TEdgeH0
 CONSTANTS Targets <- TEdgeTargets  Vals <- ValsT  Facs <- FacsT  Masses <- MassesT  Maps <- MapsT  FracMaps <- FracMapsT
 CONSTANTS LeafVolCut <- LeafVolCutEnv  ScaleRaises <- ScaleRaisesEnv
-INIT Init
+INIT InitB
 NEXT NextB
 CONSTRAINT Bound
 VIEW View
